@@ -255,7 +255,7 @@ Theorem C24_git_only_in_source_added_refuted :
   exists (src dst : tagdict) (cs : list bytes) (n v : bytes),
     dict_get bytes_eqb src n = Some v /\ dict_get bytes_eqb dst n = None /\
     dict_get bytes_eqb (upd bytes bytes (reconcileB src dst false None)) n = Some v /\
-    exists r', stored (DGit cs) (res bytes bytes (reconcileB src dst false None)) = Some r'
+    exists r', stored (DGit cs) dst (res bytes bytes (reconcileB src dst false None)) = Some r'
                /\ dict_get bytes_eqb r' n = None.
 Proof.
   exists [([103], [120])]%N, [], [[99]]%N, [103]%N, [120]%N.
@@ -265,15 +265,26 @@ Print Assumptions C24_git_only_in_source_added_refuted.
 
 (* guard (executable): when every revision id of the dict is a commit, git keeps the dict as it is;
    in general it keeps exactly the entries whose revision id is a commit *)
-Theorem C24_git_store_guarded : forall cs d,
-  forallb (git_keeps cs) d = true -> stored (DGit cs) d = Some d.
+Theorem C24_git_store_guarded : forall cs old d,
+  forallb (git_keeps cs) d = true -> stored (DGit cs) old d = Some d.
 Proof. exact git_store_guarded. Qed.
 Print Assumptions C24_git_store_guarded.
 
-Theorem C24_git_store_keeps_exactly_the_commits : forall cs d d' kv,
-  stored (DGit cs) d = Some d' -> (In kv d' <-> In kv d /\ git_keeps cs kv = true).
+Theorem C24_git_store_entries : forall cs old d d' k v,
+  stored (DGit cs) old d = Some d' ->
+  (In (k, v) d' <->
+   (In (k, v) d /\ git_keeps cs (k, v) = true)
+   \/ (exists v', In (k, v') d /\ git_keeps cs (k, v') = false /\ dict_get bytes_eqb old k = Some v)).
 Proof. exact git_store_entries. Qed.
-Print Assumptions C24_git_store_keeps_exactly_the_commits.
+Print Assumptions C24_git_store_entries.
+
+(* even when the new revision of a tag cannot be stored, a tag the git destination already had is
+   kept (with its old value): the transfer never LOSES a destination tag *)
+Theorem C24_git_store_no_tag_lost : forall cs old d d' k v w,
+  stored (DGit cs) old d = Some d' -> In (k, v) d -> dict_get bytes_eqb old k = Some w ->
+  exists x, In (k, x) d'.
+Proof. exact git_store_no_tag_lost. Qed.
+Print Assumptions C24_git_store_no_tag_lost.
 
 (* MemoryTags.merge_to (repaired by commit b75814f, finding C24-memorytags-merge-ignores-master):
    a bound destination and its master each receive reconcile(source, own dict) *)
